@@ -188,6 +188,9 @@ func RandGenBank(r *rand.Rand, o GBOpt, labelPrefix string) seqio.GenBank {
 		}
 		if r.Intn(4) == 0 {
 			ref.Comment = words(r, 3)
+			if r.Intn(3) == 0 {
+				ref.Comment += "\n\n" + words(r, 2)
+			}
 		}
 		f.References = append(f.References, ref)
 	}
@@ -195,6 +198,9 @@ func RandGenBank(r *rand.Rand, o GBOpt, labelPrefix string) seqio.GenBank {
 		cm := words(r, 2+r.Intn(6))
 		if r.Intn(2) == 0 {
 			cm += "\n" + words(r, 3)
+		}
+		if r.Intn(4) == 0 {
+			cm += "\n\n" + words(r, 4) // paragraph break, as in RefSeq comments
 		}
 		f.Comments = append(f.Comments, cm)
 	}
